@@ -290,11 +290,21 @@ def corpus_cases():
 
 
 def build_cases(ctx):
-    cases = corpus_cases()
     rng = ctx.rng
+    if ctx.replay:
+        # --replay f: exactly the document of the replay file, every mutation at every site, every style, in-process CLI
+        try:
+            j = json.loads(open(ctx.replay).read())
+            c = j.get("case") or (j.get("correspondence_disagreements") or [{}])[0].get("case") or {}
+            if "doc" in c:
+                return [{"doc": PM.strip_seal(c["doc"]), "via": c.get("via", "text"), "origin": "replay", "seed": j.get("seed", 0), "mut_cap": None, "corr_cap": 12,
+                         "n_mix": 6, "cli": "inproc" if c.get("via", "text") == "text" else None}]
+        except Exception as e:
+            ctx.notes.append(f"replay file not usable ({e}); running the full check")
+    cases = corpus_cases()
     w = 1 if ctx.thorough else min(ctx.widen, 4)
-    n_text = 1500 if ctx.thorough else 160 * w
-    n_ast = 500 if ctx.thorough else 60 * w
+    n_text = 1500 if ctx.thorough else 400 * w
+    n_ast = 500 if ctx.thorough else 120 * w
     # small exhaustive part: every pair of node templates as the LAST two nodes (the seal section follows every kind of last node)
     for d in PG.exhaustive(("sections", "dups", "holo", "assign_after_block"), 2 if ctx.thorough else 1):
         cases.append({"doc": d, "via": "text", "origin": "exh"})
@@ -364,7 +374,8 @@ def run(ctx: vlib.Ctx):
     replay_findings(ctx, findings)
 
     cases = build_cases(ctx)
-    results = vlib.pmap(run_case, cases)
+    cases.sort(key=lambda c: 0 if c.get("cli") == "subprocess" else 1)      # expensive cases first, small chunks
+    results = vlib.pmap(run_case, cases, chunksize=1 if len(cases) < 400 else 4)
 
     # ---- correspondence: Lean sealer (externals supplied) vs sealer.py ------------------------------------------
     drv = proj.driver()
